@@ -11,7 +11,7 @@ import itertools
 import logging
 
 from hv import boot  # noqa: F401
-from hv.core import Result, viol
+from hv.core import Result, task_failure, viol
 from hv.ctxkit import Capture
 from hv.vloop import VLoop
 from hv.world import Chooser
@@ -22,7 +22,7 @@ ID = "C19"
 TECHNIQUE = "exhaustive enumeration of the scope-tree x logger/trace-id/name x log-call grammar on the real context logging, tree-interpreter oracle over captured log records"
 RULE = (
     "scope trees up to N nodes (inline / spawned children) x per node own logger y/n x trace id "
-    "{not given, own, empty string} x name in {'a', '', '100%', '%s', '%(x)s', 'a b'}; at every position (outside before, "
+    "{not given, own, empty string} x name in {'a', '', '100%', '%s', '%(x)s', 'a b', '{', '{x}', '{}{0}'}; at every position (outside before, "
     "inside every node before/after its children, outside after) one call per level {debug, "
     "info, warning, error} x (message,args) in 6 forms (incl. an argument whose __str__ raises: never-raises only) x optional exception; non-trivial = the "
     "call is made inside a nested scope, or the name / message needs %-handling"
@@ -31,16 +31,18 @@ ASSUMPTIONS = [
     "records are captured by a handler on the root logger (loggers propagate); logger identity = record.name",
     "a message whose own format and arguments agree: 'm', 'm %s'%(x,), '%d+%s'%(1,'y'), '%(k)s'%{'k':1}, '100% sure' without arguments",
 ]
-BOUNDS = {"quick": {"N": 2, "names": 6}, "thorough": {"N": 3, "names_for_3": ["a", "%s"]}}
+BOUNDS = {"quick": {"N": 2, "names": 9}, "thorough": {"N": 3, "names_for_3": ["a", "%s"]}}
 EXHAUSTIVE = {"quick": True, "thorough": True}
 SAMPLE_EVERY = {"quick": 300, "thorough": 1500}
 
-NAMES = ["a", "", "100%", "%s", "%(x)s", "a b"]
+NAMES = ["a", "", "100%", "%s", "%(x)s", "a b", "{", "{x}", "{}{0}"]
 FORMS = [
     ("MSG m", ()),
     ("MSG m %s", ("x",)),
     ("MSG %d+%s", (1, "y")),
     ("MSG %(k)s", ({"k": 1},)),
+    ("MSG {} {x} {0", ()),  # braces are ordinary characters for %-style logging
+    ("MSG {0} %s }", ("x",)),
     ("MSG 100% sure", ()),  # no arguments: logging does not format, '%' stays literal
     ("MSG bad %s", ("<<BADSTR>>",)),  # an argument whose __str__ raises: may be lost, must not raise
 ]
@@ -166,8 +168,8 @@ def _late(program, ch: Chooser) -> Result:
 
         task = loop.create_task(main())
         loop.run_ready()
-        if not task.done() or task.exception() is not None:
-            viols.append(viol("never-raises", "late-task/driver", "runs", repr(task.exception() if task.done() else "pending")[:160]))
+        if task_failure(task) is not None:
+            viols.append(viol("never-raises", "late-task/driver", "runs", task_failure(task)[:160]))
         want_logger = "own.mid" if program["mid_logger"] else "root"
         mid = ms.get("mid")
         for where, got in out:
@@ -230,8 +232,8 @@ def _enter_cancel(program, ch: Chooser) -> Result:
 
         task = loop.create_task(main())
         loop.run_ready()
-        if not task.done() or task.exception() is not None:
-            viols.append(viol("never-raises", "enter-cancel/driver", "runs", repr(task.exception() if task.done() else "pending")[:160]))
+        if task_failure(task) is not None:
+            viols.append(viol("never-raises", "enter-cancel/driver", "runs", task_failure(task)[:160]))
         for where, got in out:
             if len(got) != 1:
                 viols.append(viol("exactly-one-record", f"enter-cancel/{where}", 1, len(got)))
@@ -371,7 +373,9 @@ def execute(program, ch: Chooser) -> Result:  # noqa: C901, PLR0915
         loop.run_ready()
         if not task.done():
             raise RuntimeError("C19 driver did not finish")
-        if task.exception() is not None:
+        if task.cancelled():
+            viols.append(viol("never-raises", "driver-cancelled", "runs", "the program ended cancelled although nobody cancelled it"))
+        elif task.exception() is not None:
             viols.append(viol("never-raises", "driver-failed", "runs", repr(task.exception())[:200]))
         nested_calls = 0
         percent = 0
@@ -383,7 +387,7 @@ def execute(program, ch: Chooser) -> Result:  # noqa: C901, PLR0915
             else:
                 want_text = c["msg"] % (c["args"][0] if len(c["args"]) == 1 and isinstance(c["args"][0], dict) else c["args"]) if c["args"] else c["msg"]
             name = nodes[i]["opt"][2] if i is not None else None
-            tricky = name is not None and "%" in name
+            tricky = name is not None and ("%" in name or "{" in name)
             witness = f"{'scope' if i is not None else 'outside'}/{'pct-name' if tricky else 'plain-name'}/{'args' if c['args'] else 'noargs'}"
             if i is not None and nodes[i]["parent"] is not None:
                 nested_calls += 1
